@@ -161,6 +161,9 @@ func main() {
 				continue // the faulty twin scenario is explored in the thorough tier only
 			}
 		}
+		if sc.Twin {
+			pb, db = 1, 1 // two callers and two writers: one preemption and one environment deviation
+		}
 		m, err := sched.RunShardedFree(sc.Name, pb, db, goruntime.NumCPU(), maxFree)
 		if err != nil {
 			fmt.Fprintln(os.Stderr, "internal error:", err)
